@@ -474,7 +474,7 @@ def worker(job):
                     if len(v["domain"]) < 11 and len(case["variables"]) <= 2:
                         pass
             else:
-                case = gen.gen_case(rng, min_vars=1, max_vars=5, max_dom=4, palettes=("ties", "float", "neg"), max_space=300, initial=True,
+                case = gen.gen_case(rng, min_vars=1, max_vars=5, max_dom=4, palettes=("ties", "float", "neg", "hugefloat"), max_space=300, initial=True,
                                     binary_only=False)
                 if rng.random() < 0.35:
                     gen.mix_domain_types(rng, case)
